@@ -30,7 +30,7 @@ func init() {
 var profC12 = Profile{
 	MaxBars: 8, MinBars: 2, MaxSteps: 40, Refresh: []string{"manual", "manual", "autoinj", "autort"}, QLens: []int{-1},
 	Pop: 25, Queue: 20, Prio: true, Ext: 10, Rm: 30, NoPop: 20, AbortW: 3, TicksW: 10,
-	SyncDecors: 3, PlainDecors: 1, Wraps: true, NoDecorPct: 10, ChurnW: 2, Fillers: []string{"tag", "nop", "bar"}, LateAdd: true, Cancel: 8,
+	SyncDecors: 3, PlainDecors: 1, Wraps: true, NoDecorPct: 10, ChurnW: 2, DisabledPct: 8, Fillers: []string{"tag", "nop", "bar"}, LateAdd: true, Cancel: 8,
 }
 
 func genC12(t *rapid.T) interface{} {
@@ -66,6 +66,9 @@ func runC12(ci interface{}) Result {
 	for bi, b := range sc.Bars {
 		ord := [2]int{}
 		for di, d := range b.Decors {
+			if d.Disabled {
+				continue // switched off: the bar never gets it
+			}
 			if d.C&decor.DSyncWidth != 0 {
 				col[[2]int{bi, di}] = c12Col{d.Side, ord[d.Side]}
 				ord[d.Side]++
